@@ -18,7 +18,8 @@ PFX = {"spdx": "SPDX-FileCopyrightText:", "spdx_c": "SPDX-FileCopyrightText: (C)
        "string": "Copyright", "string_c": "Copyright (C)", "string_symbol": "Copyright ©", "symbol": "©"}
 HOLDERS = ["Jane Doe", "ACME, Inc.", "Jane Doe <jane@example.com>", "Example Org e.V. <https://example.org>",
            "Jürgen Müller", "O'Reilly & Sons", "3M Company", "the authors of foo-bar (see AUTHORS)",
-           "Free Software Foundation Europe e.V.", "山田 太郎", "Free Copyright Society", "The © Group", "No (c) Nonsense Ltd"]
+           "Free Software Foundation Europe e.V.", "山田 太郎", "Free Copyright Society", "The © Group", "No (c) Nonsense Ltd",
+           "Carmen Bianca Bakker", "cURL maintainers", "(ACME) Holdings, Inc."]
 
 
 NOTICE_LIKE_HOLDERS = ["Copyright Clearance Center, Inc.", "\u00a9 Software GmbH", "Copyright (C) Collective"]
